@@ -443,8 +443,9 @@ class FunctionReference:
 
         # Parse information from the string
         match = re.match(
-            r"((?P<cluster>.*)::)?(?P<module>.*):(?P<function>[^#]*)(#(?P<version>.*))?",
+            r"((?P<cluster>[^:#]*)::)?(?P<module>[^:#]*):(?P<function>[^:#]*)(#(?P<version>.*))?$",
             qualified_name,
+            re.DOTALL,
         )
         if not match:
             raise ValueError(
